@@ -438,16 +438,49 @@ class TableRun:
                                              f"{what}: got {gi}, brute force says {ei}")
 
     def op_genid(self, op: list) -> None:
+        from ipv8.dht import routing
+        mode = op[2] if len(op) > 2 else 0
         random.seed(op[1])
-        for key, b in self.buckets:
-            g = self.guarded("T6", "Bucket.generate_id", lambda b=b: b.generate_id())
-            if "1" in key:
-                self.nonzero_genid += 1
-            if not isinstance(g, bytes) or len(g) != 20:
-                self.defer("T6", "Bucket.generate_id", f"bucket {key!r} generated {g!r}, not a 20-byte id")
-            elif not binstr(g).startswith(key):
-                self.defer("T6", "Bucket.generate_id", f"bucket {key!r} generated id {g.hex()} "
-                                                      f"({binstr(g)[:len(key) + 2]}...) which lies outside the bucket")
+        saved = routing.random
+        if mode:
+            # the random source is an input too: every bounded draw comes out at its lower (1) / upper (2) bound, or
+            # one below the upper bound (3)
+            routing.random = _BoundRandom(mode)
+        try:
+            for key, b in self.buckets:
+                g = self.guarded("T6", "Bucket.generate_id", lambda b=b: b.generate_id())
+                if "1" in key:
+                    self.nonzero_genid += 1
+                if not isinstance(g, bytes) or len(g) != 20:
+                    self.defer("T6", "Bucket.generate_id", f"bucket {key!r} generated {g!r}, not a 20-byte id")
+                elif not binstr(g).startswith(key):
+                    self.defer("T6", "Bucket.generate_id", f"bucket {key!r} generated id {g.hex()} "
+                                                          f"({binstr(g)[:len(key) + 2]}...) which lies outside the bucket")
+        finally:
+            routing.random = saved
+
+
+class _BoundRandom:
+    """
+    Stands in for the ``random`` module inside ipv8.dht.routing: bounded draws return a bound.
+    """
+
+    def __init__(self, mode: int) -> None:
+        self.mode = mode
+
+    def randint(self, a: int, b: int) -> int:
+        return a if self.mode == 1 else b if self.mode == 2 else max(a, b - 1)
+
+    def randrange(self, start: int, stop: int | None = None) -> int:
+        if stop is None:
+            start, stop = 0, start
+        return start if self.mode == 1 else stop - 1 if self.mode == 2 else max(start, stop - 2)
+
+    def getrandbits(self, k: int) -> int:
+        return 0 if self.mode == 1 else (1 << k) - 1 if self.mode == 2 else max(0, (1 << k) - 2)
+
+    def __getattr__(self, name: str):
+        return getattr(random, name)
 
 
 def execute_table(ctx: Ctx | None, case: dict) -> TableRun:
@@ -561,7 +594,18 @@ def gen_case(seed: int, steps: int, mykind: int, cluster: int, mix: int) -> dict
                 ids.append(ids[i])
                 adds.append(ops[-1])
                 note_id(ids[i])
-            elif r < 0.12:
+            elif r < 0.16:
+                # a burst of good nodes that all share exactly as many bits with our own id as the leaf on our path is
+                # deep: they fill that leaf from the far half, the split leaves the near half empty and the far half
+                # full - the newcomers after that must be turned away without splitting off our path
+                d = min(159, depth())
+                for _b in range(rng.randint(9, 12)):
+                    v = clustered(my, d, rng.getrandbits(160))
+                    ops.append(["add", hexid(v), 0, rng.randint(1024, 65535), rng.choice(RTTS), 0, 0, 0])
+                    ids.append(v)
+                    adds.append(ops[-1])
+                    note_id(v)
+            elif r < 0.20:
                 keyidx = rng.randrange(keypool.size())
                 ops.append(["add", None, keyidx, port, rng.choice(RTTS), *status_args()])
                 ids.append(int.from_bytes(mk_node(None, keyidx, port).id, "big"))
@@ -594,7 +638,7 @@ def gen_case(seed: int, steps: int, mykind: int, cluster: int, mix: int) -> dict
             k = rng.choice([1, 2, 7, 8, 8, 9, 20, rng.randint(1, 20), rng.randint(1, 20)])
             ops.append(["closest", hexid(t), k, rng.randrange(1 << 16) if rng.random() < 0.35 else None])
         elif kind == 5:
-            ops.append(["genid", rng.getrandbits(32)])
+            ops.append(["genid", rng.getrandbits(32), rng.choice([0, 0, 1, 2, 2, 3])])
         else:
             ops.append(["readd", rng.randrange(1 << 16), rng.choice(RTTS), rng.choice(AGES), rng.choice(AGES)])
     return {"kind": "table", "my": hexid(my), "ops": ops}
